@@ -44,7 +44,13 @@ func (u *Upsert) Encode(c *proto.PacketContext, wr io.Writer) error {
 		if err := util.WriteUUID(wr, entry.ProfileID); err != nil {
 			return err
 		}
-		for _, action := range u.ActionSet {
+		// The protocol fixes the order of the per-entry action data to the order of the
+		// action bits (UpsertActions), regardless of the order in which (or how often)
+		// the actions were added to the ActionSet.
+		for _, action := range UpsertActions {
+			if !ContainsAction(u.ActionSet, action) {
+				continue
+			}
 			if err := action.Encode(c, wr, entry); err != nil {
 				return err
 			}
